@@ -5,7 +5,7 @@ import findings
 
 MC_CFG = """SPECIFICATION %s
 CONSTANTS UUIDs = {%s}
- F1Vals = {"x","y","z"}
+ F1Vals = {"","p","z"}
  F2Vals = {"nil","p"}
  Variant = "%s"
 %s
